@@ -322,7 +322,8 @@ func genExecFacts(repo string) (string, error) {
 		{nativenames.Designation, "designateAsRole", 2}, {nativenames.Policy, "setWhitelistFeeContract", 4},
 		{nativenames.Policy, "removeWhitelistFeeContract", 3}, {nativenames.Neo, "transfer", 4}, {nativenames.Neo, "vote", 2},
 		{nativenames.Neo, "registerCandidate", 1}, {nativenames.Neo, "unregisterCandidate", 1},
-		{nativenames.Oracle, "request", 5}, {nativenames.Notary, "lockDepositUntil", 2}, {nativenames.Notary, "withdraw", 2}}
+		{nativenames.Oracle, "request", 5}, {nativenames.Notary, "lockDepositUntil", 2}, {nativenames.Notary, "withdraw", 2},
+		{nativenames.Neo, "setGasPerBlock", 1}}
 	var nerr error
 	flagsN := map[nm]int{}
 	func() {
